@@ -4,10 +4,10 @@
    inductives.  Run from this directory: coqc -Q ../theories Goag Extract.v *)
 Require Extraction.
 Require Import ExtrOcamlBasic.
-From Goag Require Import Base.Str Model.OutDir Model.GoLit Model.Router Model.Serve Model.Params Model.Json Spec.RouterSpec Spec.ServeSpec Spec.JsonSpec.
+From Goag Require Import Base.Str Model.OutDir Model.GoLit Model.Router Model.Serve Model.Params Model.Json Model.NilSafety Spec.RouterSpec Spec.ServeSpec Spec.JsonSpec.
 
 Extraction Language OCaml.
 Extraction "model.ml"
   OutDir.run_history OutDir.observe OutDir.spec_dir OutDir.empty_dir OutDir.write
   GoLit.encode GoLit.go_eval GoLit.embeddable
-  Serve.serve Serve.gen_accepts Params.parse_request Json.enc Json.dec JsonSpec.validates ServeSpec.serve_spec RouterSpec.match_request Router.route_root Serve.gen_tree.
+  Serve.serve Serve.gen_accepts Params.parse_request Json.enc Json.dec JsonSpec.validates NilSafety.gen_front NilSafety.loader_inv ServeSpec.serve_spec RouterSpec.match_request Router.route_root Serve.gen_tree.
